@@ -120,6 +120,8 @@ def cell_matches(text, v, token):
 			return False
 		if isinstance(v, float) and v != v:
 			return f != f
+		if isinstance(v, float) and v == 0.0 and f == 0.0:
+			return math.copysign(1.0, f) == math.copysign(1.0, v)      # -0.0 and 0.0 are different values
 		return f == v or math.isclose(f, v, rel_tol=1e-5, abs_tol=1e-12)
 	if isinstance(v, int):
 		return text == str(v)
@@ -340,6 +342,27 @@ def run_strsub(chk, spec):
 		chk.fail("repr never misstates data (a str-subclass instance is shown like the string it is)", f"repr/{spec['obj']}-cell/str-subclass-shown-differently", f"{spec!r}:\n{a.value}\n--- with plain strings ---\n{b.value}")
 
 
+def run_str_cells(chk, spec):
+	"""a str column is shown left-justified with every cell exactly as stored - leading blanks included"""
+	vals = spec["values"]
+	t = Table([Vector(list(vals), name="s"), Vector(list(range(len(vals))), name="n")])
+	o = call(repr, t)
+	chk.judged("table-truth", ("str-cells", len(vals), spec.get("obj", "table")))
+	if not o.ok:
+		chk.fail("repr never raises", f"repr/raises/table/str-cells/{type(o.exc).__name__}", f"{spec!r} raised {o!r}")
+		return
+	lines = o.value.split("\n")
+	body = [ln for ln in lines if ln.rstrip().endswith(tuple(str(i) for i in range(len(vals)))) and not ln.startswith("#")][-len(vals):]
+	if len(body) != len(vals):
+		chk.counters["str-cells-unparsed"] += 1
+		return
+	width = max(len(x) for x in vals + ["s"])
+	for ln, x in zip(body, vals):
+		if not ln.startswith(x.ljust(width)[:len(x)]) or (x != x.lstrip() and ln[:len(x)] != x):
+			chk.fail("shown rows are the first and last rows (cells exactly as stored)", "repr/table-cell/str-leading-whitespace", f"{spec!r}: line {ln!r} for the cell {x!r}\n{o.value}")
+			return
+
+
 def run_total(chk, spec):
 	setup_limits(spec)
 	try:
@@ -369,7 +392,7 @@ def run_total(chk, spec):
 		display.set_repr_rows(None)
 
 
-RUNNERS = {"strsub": run_strsub, "vector_truth": run_vector_truth, "table_truth": run_table_truth, "total": run_total}
+RUNNERS = {"str_cells": run_str_cells, "strsub": run_strsub, "vector_truth": run_vector_truth, "table_truth": run_table_truth, "total": run_total}
 RUNNERS["recompute"] = recompute.runner("C20")
 
 SIMPLE = {
@@ -468,6 +491,15 @@ def run(chk):
 							"namepat": namepat, "dtpat": dtpat, "polluter": None}, "table-truth-zero-rows")
 					chk.case("table_truth", {"names": names, "cols": cols, "limit": limit, "override": override, "simple": True,
 						"namepat": namepat, "dtpat": dtpat, "polluter": rng.choice([None, None, "empty-peek", "zero-col-override", "table-override", "vector-long", "failing"])}, "table-truth")
+	for vals in (["  b", "xyz"], [" a", "a", "  a"], ["x", "   y", "zzzz"], ["\tq", "r s"][1:] + [" r"]):
+		chk.case("str_cells", {"values": vals}, "str-cells")
+	# zeros of both signs, in both orders within one process (what was shown first must not decide how the other prints)
+	for vals in ([0.0, 1.5], [-0.0, 1.5], [0.0, -0.0], [-0.0, 0.0], [-0.0], [0.0]):
+		chk.case("vector_truth", {"values": vals, "name": None, "limit": None, "kind": "float-zeros", "polluter": None}, "vector-truth-zeros")
+		chk.case("table_truth", {"names": ["a"], "cols": [vals], "limit": None, "override": None, "simple": True, "namepat": "simple", "dtpat": "same", "polluter": None}, "table-truth-zeros")
+	for vals in ([{1, "a"}, 2], [{None, 1}, {2}], [{(1, "x"), (1, 2)}], [{1 + 2j, 3j}, "s"], [frozenset({1, "a"}), 0]):
+		chk.case("total", {"obj": "vector", "values": vals, "name": None, "what": "unorderable-set-cells"}, "total-sets")
+		chk.case("total", {"obj": "table", "cols": [vals, list(range(len(vals)))], "names": ["a", "b"], "what": "unorderable-set-cells-table"}, "total-sets")
 	for vals in ([("tag", "7"), 7, ("tag", "x y"), 2.5], [("tag", "a"), None, 3], [("tag", ""), ("tag", "None"), 0], [1, ("tag", "1")]):
 		for obj in ("vector", "table"):
 			chk.case("strsub", {"values": vals, "obj": obj}, "strsub")
